@@ -184,6 +184,22 @@ def header_decls(m):
     return _cache[key]
 
 
+def own_functions(m, header):
+    """names of the functions a public header itself declares or defines, seen when it is the only header included"""
+    key = (m.repo, m.config, 'own', header)
+    if key not in _cache:
+        base = os.path.basename(header)
+        save = _enum_cache.get('ast_headers')
+        ds = ast_decls('#include "%s"\n' % header, m.flags, m.work, 'ast_own_' + base.replace('.', '_'))
+        want = os.path.realpath(os.path.join(m.repo, 'include', 'cstl', base))
+        out = []
+        for d in ds:
+            if d.kind == 'FunctionDecl' and not d.implicit and os.path.realpath(d.file or '') == want and d.name not in out:
+                out.append(d.name)
+        _cache[key] = out
+    return _cache[key]
+
+
 def in_public_header(m, d):
     f = os.path.realpath(d.file or '')
     inc = os.path.realpath(os.path.join(m.repo, 'include', 'cstl')) + os.sep
